@@ -46,7 +46,7 @@ def main():
         for c in checks:
             t0 = time.time()
             env = dict(os.environ, VF_REPO=wt, VF_EVIDENCE_DIR=f"/tmp/mv/ev-{sid}", VF_REPLAY_DIR=f"/tmp/mv/rp-{sid}")
-            k = subprocess.run(f"cd /verif && ./check {c} --tier quick", shell=True, capture_output=True, text=True, env=env)
+            k = subprocess.run(f"cd {os.environ.get('VERIF_ROOT', '/verif')} && ./check {c} --tier quick", shell=True, capture_output=True, text=True, env=env)
             keys = re.findall(r"key=(\S+)", k.stdout)
             det[c] = {"rc": k.returncode, "violation_keys": keys[:12], "wall_s": round(time.time() - t0, 1),
                       "harness_error": "HARNESS-ERROR" in k.stdout}
